@@ -284,10 +284,9 @@ class AppCfgMgr:
                     _LOGGER.info('Ignoring %s as it is running', appname)
                     cached.pop(appname, None)
 
-            elif os.path.exists(os.path.join(self.tm_env.cleanup_dir,
-                                             appname)):
+            elif self._in_cleanup(appname, container):
                 # Already in the process of being cleaned up
-                _LOGGER.info('Ignoring %s as it is in cleanup', appname)
+                _LOGGER.info('Ignoring %s as it is in cleanup', container)
                 if cached.get(appname) == container:
                     cached.pop(appname, None)
 
@@ -309,8 +308,14 @@ class AppCfgMgr:
                     cached.pop(appname, None)
 
                 if needs_cleanup:
+                    cleanup_link = os.path.join(self.tm_env.cleanup_dir,
+                                                appname)
+                    if os.path.islink(cleanup_link):
+                        # Taken by another container of the same instance.
+                        cleanup_link = os.path.join(self.tm_env.cleanup_dir,
+                                                    container)
                     fs.symlink_safe(
-                        os.path.join(self.tm_env.cleanup_dir, appname),
+                        cleanup_link,
                         os.path.join(self.tm_env.apps_dir, container)
                     )
                     _LOGGER.debug('Removed %r', appname)
@@ -320,6 +325,23 @@ class AppCfgMgr:
                 _LOGGER.debug('Added new app %r', appname)
 
         self._refresh_supervisor()
+
+    def _in_cleanup(self, appname, container):
+        """Check if the container is linked in cleanup.
+
+        The cleanup link is named after the container by _terminate and after
+        the instance by the monitor.
+        """
+        if os.path.exists(os.path.join(self.tm_env.cleanup_dir, container)):
+            return True
+
+        instance_cleanup_link = os.path.join(self.tm_env.cleanup_dir, appname)
+        return (
+            os.path.exists(instance_cleanup_link) and
+            os.path.basename(
+                self._resolve_running_link(instance_cleanup_link)
+            ) == container
+        )
 
     def _configure(self, instance_name):
         """Configures and starts the instance based on instance cached event.
